@@ -11,6 +11,7 @@ import (
 
 	"codeberg.org/TauCeti/mangle-go/ast"
 	"codeberg.org/TauCeti/mangle-go/factstore"
+	"mvharness/hlib"
 )
 
 // JSON shapes shared by the temporal runners.
@@ -49,7 +50,7 @@ func outBound(b ast.TemporalBound) []any {
 }
 
 func mkIv(b []jBound) ast.Interval { return ast.Interval{Start: mkBound(b[0]), End: mkBound(b[1])} }
-func outIv(i ast.Interval) []any    { return []any{outBound(i.Start), outBound(i.End)} }
+func outIv(i ast.Interval) []any   { return []any{outBound(i.Start), outBound(i.End)} }
 
 func mkAtom(a jAtom) ast.Atom {
 	args := make([]ast.BaseTerm, len(a.Args))
@@ -123,7 +124,7 @@ func collectTF(res *[]any) func(factstore.TemporalFact) error {
 }
 
 func init() {
-	register("c13", func(in json.RawMessage) (any, error) {
+	hlib.Register("c13", func(in json.RawMessage) (any, error) {
 		var c c13Case
 		if err := json.Unmarshal(in, &c); err != nil {
 			return nil, err
@@ -197,7 +198,7 @@ func (o c13Op) T2() int { return int(o.T) }
 
 func init() {
 	// F8 probe: two distinct atoms with equal Atom.Hash() in one temporal store.
-	register("c13_f8", func(in json.RawMessage) (any, error) {
+	hlib.Register("c13_f8", func(in json.RawMessage) (any, error) {
 		a := ast.NewAtom("p", ast.Number(0))
 		b := ast.NewAtom("p", ast.List(nil))
 		if a.Equals(b) || a.Hash() != b.Hash() {
